@@ -67,6 +67,18 @@ func main() {
 			n3 = append(n3, n)
 		}
 	}
+	if !c.Thorough() {
+		// recorded witnesses of the known finding that only the thorough enumeration contains
+		have := map[string]bool{}
+		for _, n := range n2 {
+			have[n.Name] = true
+		}
+		for _, w := range shapes.Witness2("Union2D[plain](Transform2D[Scale(2,0.5)](Polygon2D(L-shape)@(-5,-5)), Circle2D(r=1))", "Multi2D[3 positions](Transform2D[Translate(3,-2)](GearRack2D(n=11,m=0.03125,pa=20,bl=0,h=0.025)))") {
+			if !have[w.Name] {
+				n2 = append(n2, w)
+			}
+		}
+	}
 	N2, N3 := vlib.Pick(c, 17, 41), vlib.Pick(c, 8, 16)
 	var cmp, built, withRef int64
 	roots := vlib.NewCounter()
